@@ -288,43 +288,44 @@ def case_pencils(ctx, cfg):
             if not judge_common(ctx, G, G.Conic(A1.astype(float)), G.Conic(A2.astype(float)), A1, A2, [a, b, c], {"a_double": a, "b": b, "c": c, "lambda": str(l1), "mu": str(l2), "self": A1, "other": A2}, "tangent-pencil"):
                 return
     elif kind == "near-coincident-points":
-        # unit circle (and ellipses) against a pair of lines whose vertex lies 2^-20 outside the conic: two of the four
-        # common points are about 2e-6 apart - distinct by a factor 100 with respect to the library's tolerance
-        eps = 2.0**-20
-        for (a2, b2), (vx, vy, s1, s2) in itertools.product([(1, 1), (4, 1), (1, 4)], [(1, 0, 1, -1), (1, 0, 2, -1), (-1, 0, 1, -1), (0, 1, 1, -1)]):
-            # conic x^2/a2 + y^2/b2 = 1 ; vertex just outside on a coordinate axis
-            ax, ay = (a2**0.5, 0.0) if vy == 0 else (0.0, b2**0.5)
-            V = np.array([vx * (ax + eps) if vy == 0 else 0.0, vy * (ay + eps) if vy != 0 else 0.0])
+        # a conic against a pair of lines whose vertex lies about 1e-6 outside the conic: two of the four common points
+        # are about 2e-6 apart - distinct by a factor 100 with respect to the library's tolerance, yet closer than 1e-5
+        # relative to their coordinates
+        e20, e22 = 2.0**-20, 2.0**-22
+        cases = []
+        for a2, b2 in ((1, 1), (4, 1), (1, 4)):
+            for vx, vy, sl in ((1, 0, (1, -1)), (1, 0, (2, -1)), (-1, 0, (1, -1)), (0, 1, (1, -1))):
+                V = (vx * (a2**0.5 + e20), 0.0) if vy == 0 else (0.0, vy * (b2**0.5 + e20))
+                dirs = [(s_, 1.0) for s_ in sl] if vy == 0 else [(1.0, s_) for s_ in sl]
+                cases.append((a2, b2, V, dirs))
+        for px, py in ((3, 4), (-4, 3), (3, -4), (4, 3)):
+            cases.append((25, 25, (px * (1 + e22), py * (1 + e22)), [(1.0, 0.0), (0.0, 1.0)]))
+            cases.append((25, 25, (px * (1 + e22), py * (1 + e22)), [(1.0, 1.0), (1.0, -2.0)] if px * py > 0 else [(1.0, -1.0), (2.0, 1.0)]))
+        for a2, b2, V, dirs in cases:
+            V = np.array(V)
             A1 = np.diag([1.0 / a2, 1.0 / b2, -1.0])
-            # lines through V: direction (1, s) resp. (s, 1) (transversal to the axis through V)
-            lines = []
-            for sl in (s1, s2):
-                dvec = np.array([sl, 1.0]) if vy == 0 else np.array([1.0, sl])
-                lines.append(np.array([dvec[1], -dvec[0], -(dvec[1] * V[0] - dvec[0] * V[1])]))
+            lines = [np.array([dv[1], -dv[0], -(dv[1] * V[0] - dv[0] * V[1])]) for dv in dirs]
             A2 = np.outer(lines[0], lines[1])
             A2 = A2 + A2.T
-            # own computation of the four common points: each line with the conic (quadratic in the line parameter)
             base = []
-            for l in lines:
-                dvec = np.array([-l[1], l[0]])
-                p0 = V
-                qa = dvec[0] ** 2 / a2 + dvec[1] ** 2 / b2
-                qb = 2 * (p0[0] * dvec[0] / a2 + p0[1] * dvec[1] / b2)
-                qc = p0[0] ** 2 / a2 + p0[1] ** 2 / b2 - 1
+            for dv in dirs:
+                qa = dv[0] ** 2 / a2 + dv[1] ** 2 / b2
+                qb = 2 * (V[0] * dv[0] / a2 + V[1] * dv[1] / b2)
+                qc = V[0] ** 2 / a2 + V[1] ** 2 / b2 - 1
                 disc = qb * qb - 4 * qa * qc
                 assert disc > 0
                 for sg in (1, -1):
                     t_ = (-qb + sg * disc**0.5) / (2 * qa)
-                    base.append((p0[0] + t_ * dvec[0], p0[1] + t_ * dvec[1], 1.0))
+                    base.append((V[0] + t_ * dv[0], V[1] + t_ * dv[1], 1.0))
             dmin = min(np.hypot(p[0] - q[0], p[1] - q[1]) for p, q in itertools.combinations(base, 2))
-            assert 1e-7 < dmin < 1e-5, dmin
-            ctx.state((kind, a2, b2, vx, vy, s1, s2))
-            ctx.tally("near-pair-distance-1e-6")
+            assert 1e-7 < dmin < 2e-5, dmin
+            ctx.state((kind, a2, b2, tuple(V), tuple(dirs)))
+            ctx.tally("near-pair:on-axis" if 0.0 in V else "near-pair:generic-position")
             for x, y, tag in ((A1, A2, "conic,line-pair"), (A2, A1, "line-pair,conic")):
                 c1, c2 = G.Conic(x), G.Conic(y)
                 r, e = ctx.call(c1.intersect, c2)
                 ctx.trace()
-                inputs = {"conic": [a2, b2], "vertex": V, "slopes": [s1, s2], "order": tag}
+                inputs = {"conic": [a2, b2], "vertex": V, "directions": dirs, "order": tag}
                 if e is not None:
                     ctx.fail(f"near-coincident:{type(e).__name__}", "intersect", inputs, base, e)
                     return
